@@ -60,7 +60,8 @@ def snapshot(root):
 
 
 def run_row(args):
-    work, i, row, variants = args
+    work, i, row, variants = args[:4]
+    vi = args[4] if len(args) > 4 else i
     fl, wd, verdict, want_effects, want_exit = row
     c, fm, g, s, v, o = fl
     lx, ps, ow, fmt = wd
@@ -70,7 +71,7 @@ def run_row(args):
     os.makedirs(os.path.join(root, 'out'))
     if verdict != 'unreadable':
         vs = variants[verdict]
-        open(os.path.join(root, 'src', 'g.llw'), 'w').write(vs[i % len(vs)][bool(fmt)])
+        open(os.path.join(root, 'src', 'g.llw'), 'w').write(vs[vi % len(vs)][bool(fmt)])
     if lx:
         open(os.path.join(root, 'src', 'lexer.rs'), 'w').write('// hand edited lexer\n')
     if ps:
@@ -109,7 +110,7 @@ def run_row(args):
     shutil.rmtree(root, ignore_errors=True)
     code = r.returncode
     ok = (eff == set(want_effects)) and (str(code) == want_exit)
-    return ok, {'cmd': ' '.join(cmd[1:]), 'verdict': verdict, 'grammar': (variants[verdict][i % len(variants[verdict])][bool(fmt)] if verdict != 'unreadable' else None), 'lexer_exists': bool(lx), 'parser_exists': bool(ps), 'out_writable': bool(ow),
+    return ok, {'cmd': ' '.join(cmd[1:]), 'verdict': verdict, 'grammar': (variants[verdict][vi % len(variants[verdict])][bool(fmt)] if verdict != 'unreadable' else None), 'lexer_exists': bool(lx), 'parser_exists': bool(ps), 'out_writable': bool(ow),
                 'formatted': bool(fmt), 'observed_effects': sorted(eff), 'model_effects': sorted(want_effects),
                 'observed_exit': code, 'model_exit': want_exit, 'stderr': r.stderr[-300:]}
 
@@ -141,7 +142,14 @@ def run_table(work, sample=None, rng=None):
     total = len(rows)
     if sample is not None and sample < len(rows):
         rows = rng.sample(rows, sample)
+    # the grammar of a row: the rows of one verdict cycle through that verdict's grammars
+    rank = {}
+    jobs = []
+    for i, r in enumerate(rows):
+        k = rank.get(r[2], 0)
+        rank[r[2]] = k + 1
+        jobs.append((work, i, r, variants, k + k // 7))
     with ThreadPoolExecutor(16) as ex:
-        res = list(ex.map(run_row, [(work, i, r, variants) for i, r in enumerate(rows)]))
+        res = list(ex.map(run_row, jobs))
     bad = [d for ok, d in res if not ok]
     return total, len(rows), bad, [d for ok, d in res[:3]]
